@@ -14,6 +14,7 @@ import warnings
 import pjrpc
 import pjrpc.server
 from pjrpc.common.exceptions import JsonRpcError
+from pjrpc.common import v20
 
 from .. import sched, strictjson, world
 from ..strictjson import typed_eq
@@ -44,7 +45,7 @@ ANCHORS = [
 FLOORS = {'*': {'schedules': 12000, 'shapes': 1000, 'shapes-with>=2-completion-orders': 80, 'last-element-finishes-first': 50,
                 'max-in-flight>=2:concurrent': 200, 'sequential-mode-shapes': 60, 'points:method': 500, 'points:middleware': 500,
                 'points:error-handler': 200, 'profile:notification': 100, 'profile:plain-method': 100, 'profile:rpc-error': 100,
-                'profile:exception': 100, 'profile:plain-method-raising-TypeError': 50, 'profile:view-method': 50, 'profile:unregistered-method': 100, 'elements:4': 2, 'plain-callable-middleware': 100, 'elements:1': 20,
+                'profile:exception': 100, 'profile:plain-method-raising-TypeError': 50, 'profile:view-method': 50, 'profile:unregistered-method': 100, 'own-response-class-and-a-middleware-building-plain-responses': 200, 'elements:4': 2, 'plain-callable-middleware': 100, 'elements:1': 20,
                 'dispatcher-from-the-aiohttp-integration': 300}}
 
 # (kind, outcome, points)
@@ -81,8 +82,18 @@ def make_dispatcher(via, **kwargs):
     return pjrpc.server.AsyncDispatcher(**kwargs)
 
 
-def build(shape, concurrent, plain_mw=False, via=None):
+class OwnResponse(v20.Response):
+    """the dispatcher is configured with its own response class; a middleware may still answer with a plain Response"""
+
+
+def build(shape, concurrent, plain_mw=False, via=None, rewrap=False):
     points = {i: set(PROFILES[p][2]) for i, p in enumerate(shape)}
+
+    def envelope(resp):
+        # rewrap: the middleware hands back a NEWLY BUILT plain response object carrying the same id and result
+        if rewrap and isinstance(resp, v20.Response) and resp.is_success:
+            return v20.Response(id=resp.id, result=resp.result)
+        return resp
 
     def mw_plain(request, context, handler):
         # AsyncMiddlewareType only asks for a callable returning an awaitable: the synchronous part runs at call time
@@ -94,7 +105,7 @@ def build(shape, concurrent, plain_mw=False, via=None):
             ELEMENT.set(e)      # (inside the awaitable: the synchronous part runs in the caller's context, before any task exists)
             if 'mw-pre' in points[e]:
                 await s.point(e, 'mw-pre')
-            resp = await handler(request, context)
+            resp = envelope(await handler(request, context))
             if 'mw-post' in points[e]:
                 await s.point(e, 'mw-post')
             s.mark('finish', e)
@@ -108,7 +119,7 @@ def build(shape, concurrent, plain_mw=False, via=None):
         ELEMENT.set(e)
         if 'mw-pre' in points[e]:
             await s.point(e, 'mw-pre')
-        resp = await handler(request, context)
+        resp = envelope(await handler(request, context))
         if 'mw-post' in points[e]:
             await s.point(e, 'mw-post')
         s.mark('finish', e)
@@ -130,7 +141,8 @@ def build(shape, concurrent, plain_mw=False, via=None):
     for i, p in enumerate(shape):
         if PROFILES[p][1] == 'rpc':
             handlers[rpc_code(i)] = [code_handler(rpc_code(i))]
-    disp = make_dispatcher(via, middlewares=[mw_plain if plain_mw else mw], error_handlers=handlers, concurrent_batch=concurrent)
+    disp = make_dispatcher(via, middlewares=[mw_plain if plain_mw else mw], error_handlers=handlers, concurrent_batch=concurrent,
+                           **({'response_class': OwnResponse} if rewrap else {}))
 
     def outcome(tok, what):
         if what == 'ok':
@@ -210,8 +222,10 @@ def same_response(want, got):
     return True
 
 
-def run_shape(ctx, shape, concurrent, plain_mw=False, via=None):
-    disp, text, want = build(shape, concurrent, plain_mw, via)
+def run_shape(ctx, shape, concurrent, plain_mw=False, via=None, rewrap=False):
+    disp, text, want = build(shape, concurrent, plain_mw, via, rewrap)
+    if rewrap:
+        ctx.hit('own-response-class-and-a-middleware-building-plain-responses')
     if via:
         ctx.hit('dispatcher-from-the-aiohttp-integration')
     if len(shape) == 1:
@@ -222,7 +236,7 @@ def run_shape(ctx, shape, concurrent, plain_mw=False, via=None):
     prefix = []
     orders = set()
     n_sched = 0
-    flag = ('concurrent' if concurrent else 'sequential') + (':plain-mw' if plain_mw else '')
+    flag = ('concurrent' if concurrent else 'sequential') + (':plain-mw' if plain_mw else '') + (':rewrap' if rewrap else '')
     ctx.hit('shapes')
     if n == 4:
         ctx.hit('elements:4')
@@ -352,6 +366,9 @@ def gen(ctx):
         if len(shape) <= 2 or rng.random() < (0.5 if full else 0.15):
             yield 'shape', {'shape': shape, 'concurrent': False, 'plain_mw': True}
             yield 'shape', {'shape': shape, 'concurrent': True, 'plain_mw': True}
+        if len(shape) <= 2 or rng.random() < (0.3 if full else 0.1):
+            yield 'shape', {'shape': shape, 'concurrent': True, 'rewrap': True}
+            yield 'shape', {'shape': shape, 'concurrent': False, 'rewrap': True}
         if len(shape) == 2 or rng.random() < (0.3 if full else 0.08):
             for via in ('aiohttp-app', 'aiohttp-endpoint'):
                 yield 'shape', {'shape': shape, 'concurrent': False, 'via': via}
